@@ -55,6 +55,8 @@ pub type SharedTlsLog = Arc<Mutex<TlsLog>>;
 #[derive(Clone, Debug)]
 pub struct TlsCfg {
     pub role: Role,
+    /// endpoint index (0 = server, 1+i = client i): session nonces are ep*1000 + k
+    pub ep: u32,
     pub seed: u64,
     pub cipher: u8,
     pub cert_size: u32,
@@ -71,7 +73,8 @@ pub struct Endpoint {
 
 impl Endpoint {
     pub fn new(cfg: TlsCfg, log: SharedTlsLog) -> Self {
-        Endpoint { cfg, log, next_nonce: 1 }
+        let next_nonce = cfg.ep as u64 * 1000 + 1;
+        Endpoint { cfg, log, next_nonce }
     }
 }
 
